@@ -64,7 +64,7 @@ func c07MergeUntypedMapStream(c *Ctx) {
 	var cases []cse
 	for _, sh := range shapes {
 		for _, literal := range []bool{true, false} {
-			for seed := int64(1); seed <= 3; seed++ {
+			for seed := int64(1); seed <= 2; seed++ {
 				if literal && seed > 1 {
 					continue
 				}
